@@ -403,7 +403,10 @@ impl<'a> Run<'a> {
         // pass: the value configured now is the one that pass enforced
         let k = &self.links[l];
         if k.established {
-            if now.saturating_sub(k.last_live_delivery) < timeout {
+            // a teardown is the end of a registration: a link that was already torn down and has not been answered
+            // REG3 on its present socket is being retried (judged by the spacing clause below), not torn down again -
+            // its last delivery may well be younger than a timeout that was raised in the meantime
+            if k.reg3_on_this_socket && now.saturating_sub(k.last_live_delivery) < timeout {
                 return Err(Fail::new(
                     "real:torn-down-before-the-configured-timeout",
                     format!(
